@@ -74,6 +74,7 @@ pub fn map_code(check: &str, v: &Viol) -> Option<&'static str> {
             "events_missing" | "events_extra" if plain_ev => Some("C10.event_count"),
             "event_args" | "lineage" if plain_ev => Some("C10.event_args"),
             "leak" => Some("C10.leak"),
+            "runs_after_cancel" => Some("C10.runs_after_cancel"),
             "token_count" => Some("C10.token_count"),
             _ => None,
         },
@@ -214,6 +215,7 @@ pub fn plan_to_json(p: &Plan) -> Value {
         "batch_pm": p.batch_pm,
         "cancel_at": p.cancel_at,
         "stuck": p.stuck.iter().map(|(e, o)| json!([e, o])).collect::<Vec<_>>(),
+        "fresh_wakers": p.fresh_wakers,
     })
 }
 
@@ -250,6 +252,7 @@ pub fn plan_from_json(v: &Value) -> Plan {
     p.swake_pm = v["swake_pm"].as_u64().unwrap_or(0) as u32;
     p.batch_pm = v["batch_pm"].as_u64().unwrap_or(0) as u32;
     p.cancel_at = v["cancel_at"].as_u64().map(|x| x as u32);
+    p.fresh_wakers = v["fresh_wakers"].as_bool().unwrap_or(false);
     if let Some(a) = v["stuck"].as_array() {
         for x in a {
             p.stuck.insert((x[0].as_u64().unwrap_or(0) as u32, x[1].as_u64().unwrap_or(0) as u32));
@@ -503,6 +506,12 @@ fn record_stats(st: &mut Stats, prog: &Prog, kind: Kind, plan: &Plan, strat: Str
     if !plan.stuck.is_empty() {
         Stats::bump(f, "F-stuck", 1);
     }
+    if plan.fresh_wakers && kind.is_async() {
+        Stats::bump(f, "F-waker", 1);
+    }
+    if ev.obs.stale_wakes > 0 {
+        Stats::bump(&mut st.probes, "wake_through_stale_waker_ignored", ev.obs.stale_wakes);
+    }
     if plan.input_seed != 0 {
         Stats::bump(f, "F-input", 1);
     }
@@ -596,6 +605,9 @@ fn plans_for(mode: PlanMode, check: &str, prog: &Prog, kind: Kind, b: Budget, se
                     p.spoll_pm = 60;
                     p.swake_pm = 60;
                 }
+                if kind.is_async() && rng.chance(40, 100) {
+                    p.fresh_wakers = true;
+                }
                 if threads && mode != PlanMode::Agree {
                     p.caller = plans::random_caller(&mut rng);
                 }
@@ -636,6 +648,9 @@ fn plans_for(mode: PlanMode, check: &str, prog: &Prog, kind: Kind, b: Budget, se
                 if kind.is_async() && (mode == PlanMode::Async) && rng.chance(50, 100) {
                     p.spoll_pm = 80;
                     p.swake_pm = 80;
+                }
+                if kind.is_async() && rng.chance(50, 100) {
+                    p.fresh_wakers = true;
                 }
                 if threads {
                     p.caller = if mode == PlanMode::Thread {
@@ -853,6 +868,11 @@ pub fn minimise(check: &str, prog: &Prog, f: &mut Failure) -> (Eval, u32) {
     if !f.plan.stuck.is_empty() {
         let mut c = f.plan.clone();
         c.stuck.clear();
+        try_plan!(c);
+    }
+    if f.plan.fresh_wakers {
+        let mut c = f.plan.clone();
+        c.fresh_wakers = false;
         try_plan!(c);
     }
     if f.plan.input_seed != 0 {
